@@ -92,6 +92,7 @@ impl ArcIdleConfig {
             heartbeat_times: 0,
             last_effective_comm: None,
             idle_begin_at: None,
+            sent_since_rcvd: false,
         })))
     }
 
@@ -117,12 +118,23 @@ pub struct IdleTimer {
     heartbeat_times: u32,
     last_effective_comm: Option<Instant>,
     idle_begin_at: Option<Instant>,
+    // Whether an effective packet has been sent since the last packet was received.
+    sent_since_rcvd: bool,
 }
 
 impl IdleTimer {
     // Updates the timer when a packet is sent.
+    //
+    // RFC 9000 Section 10.1: an endpoint restarts its idle timer when sending an ack-eliciting
+    // packet only if no other ack-eliciting packet has been sent since last receiving and
+    // processing a packet. Otherwise an endpoint that keeps (re)transmitting to a dead peer
+    // would never become idle.
     pub fn on_sent(&mut self, packet_content: PacketContent) {
         if packet_content == PacketContent::EffectivePayload {
+            if self.sent_since_rcvd {
+                return;
+            }
+            self.sent_since_rcvd = true;
             self.last_effective_comm = Some(Instant::now());
             self.heartbeat_times = 0;
             self.idle_begin_at = None;
@@ -131,6 +143,7 @@ impl IdleTimer {
 
     // Updates the timer when a packet is received.
     pub fn on_rcvd(&mut self, packet_content: PacketContent) {
+        self.sent_since_rcvd = false;
         if packet_content == PacketContent::EffectivePayload {
             self.last_effective_comm = Some(Instant::now());
             self.heartbeat_times = 0;
